@@ -33,6 +33,7 @@ func (g *GcsEmu) makeBucketListResults(ctx context.Context, baseUrl HttpBaseUrl,
 
 	moreResults := false
 	count := 0
+	lastName := "" // the last name consumed by this page; the next page resumes after it
 	err := g.store.Walk(ctx, bucket, func(ctx context.Context, filename string, fInfo os.FileInfo) error {
 		dbgWalk("walk: %s", filename)
 
@@ -65,26 +66,37 @@ func (g *GcsEmu) makeBucketListResults(ctx context.Context, baseUrl HttpBaseUrl,
 			return nil
 		}
 
+		// See if the filename (beyond the prefix) contains delimiter, if it does, don't record the item,
+		// instead record the prefix (including the delimiter).
+		itemPrefix := ""
+		if delimiter != "" {
+			withoutPrefix := strings.TrimPrefix(filename, prefix)
+			delimiterPos := strings.Index(withoutPrefix, delimiter)
+			if delimiterPos >= 0 {
+				// Got a hit, reconstruct the item's prefix, including the trailing delimiter
+				itemPrefix = filename[:len(prefix)+delimiterPos+len(delimiter)]
+			}
+		}
+
+		// A name that collapses into a prefix already reported on this page adds no entry. Consume it even when
+		// the page is full, so that the next page resumes after every name of that prefix (otherwise the prefix
+		// would be reported again).
+		if itemPrefix != "" && seenPrefixes[itemPrefix] {
+			lastName = filename
+			return nil
+		}
+
 		if count >= maxResults {
 			moreResults = true
 			return errAbort
 		}
 		count++
+		lastName = filename
 
-		if delimiter != "" {
-			// See if the filename (beyond the prefix) contains delimiter, if it does, don't record the item,
-			// instead record the prefix (including the delimiter).
-			withoutPrefix := strings.TrimPrefix(filename, prefix)
-			delimiterPos := strings.Index(withoutPrefix, delimiter)
-			if delimiterPos >= 0 {
-				// Got a hit, reconstruct the item's prefix, including the trailing delimiter
-				itemPrefix := filename[:len(prefix)+delimiterPos+len(delimiter)]
-				if !seenPrefixes[itemPrefix] {
-					seenPrefixes[itemPrefix] = true
-					prefixes = append(prefixes, itemPrefix)
-				}
-				return nil
-			}
+		if itemPrefix != "" {
+			seenPrefixes[itemPrefix] = true
+			prefixes = append(prefixes, itemPrefix)
+			return nil
 		}
 
 		found = append(found, item{
@@ -112,10 +124,12 @@ func (g *GcsEmu) makeBucketListResults(ctx context.Context, baseUrl HttpBaseUrl,
 
 	// Resolve the found items.
 	var items []*storage.Object
+	resolveFailed := false
 	for _, item := range found {
 		if obj, err := g.store.ReadMeta(baseUrl, bucket, item.filename, item.fInfo); err != nil {
 			// return our partial results + the cursor so that the client can retry from this point
 			g.log(nil, "failed to resolve: %s", item.filename)
+			resolveFailed = true
 			break
 		} else {
 			items = append(items, obj)
@@ -123,9 +137,13 @@ func (g *GcsEmu) makeBucketListResults(ctx context.Context, baseUrl HttpBaseUrl,
 	}
 
 	var nextPageToken = ""
-	if moreResults && len(items) > 0 {
-		lastItemName := items[len(items)-1].Name
-		nextPageToken = gcsutil.EncodePageToken(lastItemName)
+	if resolveFailed {
+		if len(items) > 0 {
+			nextPageToken = gcsutil.EncodePageToken(items[len(items)-1].Name)
+		}
+	} else if moreResults && lastName != "" {
+		// Resume after the last name this page consumed, whether it was returned as an item or collapsed into a prefix.
+		nextPageToken = gcsutil.EncodePageToken(lastName)
 	}
 
 	rsp := storage.Objects{
